@@ -3,7 +3,7 @@
 sfx=$1; shift
 for nn in "$@"; do
   for k in 1 2; do
-    d=/tmp/wt/${sfx}${nn}.out/$k
+    d=/tmp/wt/${DIRPFX:-$sfx}${nn}.out/$k
     [ -f $d/patch.diff ] || continue
     [ -d /verif/seeded/C${nn}-${sfx}${k} ] && continue
     /venv/bin/python /verif/tools/keep_seed.py $d C${nn}-${sfx}${k} C${nn} 2>&1 | tail -1
